@@ -34,6 +34,13 @@ S_RULE = ('sequential histories generated from the state of the real allocator (
           'with the Lean model after every call. distinct_nontrivial counts distinct (operation, result, order/shape) '
           'signatures summed over runs.')
 
+E_RULE = (' unit ent: every pure transition of the packed entries (Tree::with/put/steal/reserve_or_steal/unreserve_add/'
+          'sync_steal/change, LocalTree::with/get/put/set_start, HugeEntry::new_with/dec/inc/free) is called on raw bits through '
+          'the verif hooks for the full product of boundary counter values (0,1,2,63..65, 1/64, 1/8, 1/4, 1/2 +-1, TREE_FRAMES-64..TREE_FRAMES) x '
+          'reserved x class x every power-of-two amount (and 0, 3, TREE_FRAMES +-1) x 5 policies (simple, movable, zeroed, two with Invalid pairs) x class '
+          'arguments, plus seeded random entries; each result (new bits / None / panic) is compared with the Lean function the Prog model applies inside its '
+          'atomic update, and checked against conservation / payability / class oracles.')
+
 PROPS = {
     'C23': {
         'oracles': ['C23'], 'bv_decide': True,
@@ -72,9 +79,9 @@ PROPS = {
     'C13': {
         'oracles': ['C13'],
         'geoms': {'quick': ['default', 'th1'], 'thorough': ALLG},
-        'runs': {'quick': [seq('mixed', 30, 150), seq('change', 10, 150)],
-                 'thorough': [seq('mixed', 600, 300), seq('change', 200, 300), seq('drain', 200, 300)]},
-        'rule': S_RULE + ' Oracle: every successful get reports the requested class or one the configured policy rates Match/Steal.',
+        'runs': {'quick': [unit('ent', 2000), seq('mixed', 30, 150), seq('change', 10, 150)],
+                 'thorough': [unit('ent', 200000), seq('mixed', 600, 300), seq('change', 200, 300), seq('drain', 200, 300)]},
+        'rule': S_RULE + ' Oracle: every successful get reports the requested class or one the configured policy rates Match/Steal.' + E_RULE,
         'assumptions': ['policy functions are pure (fn pointers without state)'],
     },
     'C08': {
@@ -179,12 +186,12 @@ PROPS = {
     'C04': {
         'oracles': ['C04'], 'bv_decide': True,
         'geoms': {'quick': ['default', 'th1'], 'thorough': ALLG},
-        'runs': {'quick': [seq('mixed', 30, 150), seq('change', 10, 150), conc(8, 40, 20, 0)],
-                 'thorough': [seq('mixed', 800, 300), seq('change', 200, 300), seq('drain', 200, 300), seq('init', 200, 100), conc(100, 300, 150, 0)]},
+        'runs': {'quick': [unit('ent', 2000), seq('mixed', 30, 150), seq('change', 10, 150), conc(8, 40, 20, 0)],
+                 'thorough': [unit('ent', 200000), seq('mixed', 800, 300), seq('change', 200, 300), seq('drain', 200, 300), seq('init', 200, 100), conc(100, 300, 150, 0)]},
         'rule': S_RULE + (' Accounting oracle after every call: stats() = (free frames, entirely free huge frames, entirely free trees) of the '
                           'shadow allocation state; tree_stats().free_frames = that minus the frames hidden by offline trees; per-class sums; '
                           'stats_at / is_free probes; validate() must not panic while no tree is offline. Concurrent: the same at the quiescent '
-                          'end of every explored schedule. ' + T_RULE),
+                          'end of every explored schedule. ' + T_RULE) + E_RULE,
         'partial': ('exact views (stats, stats_at huge/tree), the per-tree identity fast + hidden = exact, the tree_stats program (no panic, read-only, total = tree counters + reservations) '
                     'validate() and lower counters at the quiescent end of every interleaving proved; stats_at(0)/is_free and the tree counters at concurrent ends are carried by the correspondence'),
         'assumptions': [],
@@ -206,13 +213,13 @@ PROPS = {
     'C06': {
         'oracles': ['C02', 'C04', 'C09', 'C10'],
         'geoms': {'quick': ['default', 'th1', 'k16'], 'thorough': ALLG},
-        'runs': {'quick': [seq('init', 40, 30)], 'thorough': [seq('init', 1500, 60), seq('mixed', 200, 300)]},
+        'runs': {'quick': [unit('ent', 2000), seq('init', 40, 30)], 'thorough': [unit('ent', 200000), seq('init', 1500, 60), seq('mixed', 200, 300)]},
         'rule': ('boundary-dense frame counts (1..130, multiples of 64 / huge frame / tree -1,0,+1, random up to 4 trees), free-all and '
                  'allocate-all 50/50, every classing; after construction the digest of all three buffers, stats, tree_stats, validate, '
                  'stats_at of every huge frame and tree, is_free probes at the end of the range are compared with the Lean model; then '
                  'free-all: exhaust with a random order then with base frames (every further get must fail, C10 oracle), free everything; '
                  'allocate-all: gets must fail, everything is freed piecewise (tree/huge/small orders), then the cycle repeats; ownership '
-                 'and accounting oracles after every call. ' + S_RULE),
+                 'and accounting oracles after every call. ' + S_RULE) + E_RULE,
         'partial': ('none for free-all / allocate-all: the init programs are proved to establish both invariants and the stated allocation state for every '
                     'frame count; the dynamic clauses are C02/C04 theorems. (Tie of the model to the source: byte-level correspondence.)'),
         'assumptions': [],
@@ -230,11 +237,11 @@ PROPS = {
     'C10': {
         'oracles': ['C10'], 'bv_decide': True,
         'geoms': {'quick': ['default', 'th1'], 'thorough': ALLG},
-        'runs': {'quick': [seq('drain', 30, 150), seq('mixed', 15, 150)],
-                 'thorough': [seq('drain', 800, 300), seq('mixed', 400, 300), seq('init', 200, 60), seq('single', 100, 300)]},
+        'runs': {'quick': [unit('ent', 2000), seq('drain', 30, 150), seq('mixed', 15, 150)],
+                 'thorough': [unit('ent', 200000), seq('drain', 800, 300), seq('mixed', 400, 300), seq('init', 200, 60), seq('single', 100, 300)]},
         'rule': S_RULE + (' Oracle (policies that never rate Invalid): directly after drain() a base-order get fails with Memory only if no tree outside '
                           'offline trees has a free frame in the shadow state; a targeted get fails only if its block is not entirely free or lies in '
-                          'an offline tree (and succeeds only on free blocks: ownership oracle). Drain flavor: a drain precedes most probes.'),
+                          'an offline tree (and succeeds only on free blocks: ownership oracle). Drain flavor: a drain precedes most probes.') + E_RULE,
         'partial': ('proved: drain clears all reservations; after a drain a base-order get succeeds whenever a tree has a positive counter (= a free frame '
                     'outside offline trees); targeted gets are exact (C02) and complete (a free block in a tree that is not hidden is always obtained); for concurrent interleavings the quiescent drained states are explored'),
         'assumptions': [],
@@ -242,10 +249,10 @@ PROPS = {
     'C11': {
         'oracles': ['C11'], 'bv_decide': True,
         'geoms': {'quick': ['default', 'th1'], 'thorough': ALLG},
-        'runs': {'quick': [seq('single', 20, 150)], 'thorough': [seq('single', 400, 300), seq('mixed', 200, 300)]},
+        'runs': {'quick': [unit('ent', 2000), seq('single', 20, 150)], 'thorough': [unit('ent', 200000), seq('single', 400, 300), seq('mixed', 200, 300)]},
         'rule': S_RULE + (' Single-slot flavor: one class with one slot, base-order gets through the slot, frees with and without the slot, exhaust '
                           'phases; oracle: with one slot a get fails only when the shadow state has no free frame (frees counted globally are '
-                          'synchronised back into the slot).'),
+                          'synchronised back into the slot).') + E_RULE,
         'partial': ('proved end to end for every invariant state of a one-class one-slot allocator with more trees than slots and no offline trees; '
                     'the relation "every state of a history satisfies the invariant" is C02/C06 (constructed allocators)'),
         'assumptions': [],
@@ -262,10 +269,10 @@ PROPS = {
     'C15': {
         'oracles': ['C15', 'C04'], 'bv_decide': True,
         'geoms': {'quick': ['default', 'th1'], 'thorough': ALLG},
-        'runs': {'quick': [seq('change', 30, 150)], 'thorough': [seq('change', 800, 300), seq('mixed', 300, 300)]},
+        'runs': {'quick': [unit('ent', 2000), seq('change', 30, 150)], 'thorough': [unit('ent', 200000), seq('change', 800, 300), seq('mixed', 300, 300)]},
         'rule': S_RULE + (' Change flavor: change_tree with/without id, class/free matchers, class changes, Offline/Online, ids beyond the table; '
                           'oracle: an offline tree hands out nothing (targeted and untargeted gets, all slots), its frames vanish from tree_stats '
-                          'but not from stats, Online restores the counter to the lower free count exactly, validate after the last Online.'),
+                          'but not from stats, Online restores the counter to the lower free count exactly, validate after the last Online.') + E_RULE,
         'partial': ('proved for every sequential history of a constructed allocator: change_tree (no panic, only matching unreserved trees, Online exact, allocation state '
                     'untouched) and "an offline tree is never allocated from" (exact accounting of hidden frames); concurrent interleavings with tree changes are explored'),
         'assumptions': ['model deviation: Online reads the lower counters before the tree update (the source inside the update closure); equivalent sequentially'],
